@@ -21,13 +21,21 @@ Variant(p, k) ==
   ELSE IF k = 4 THEN [p EXCEPT ![(Len(p) + 1) \div 2] = 120]
   ELSE IF k = 5 THEN SubSeq(p, 1, Len(p) - 1)
   ELSE p \o p
-AB == {97, 98}
+AB == IF Mode = "small0" THEN {0, 97} ELSE {97, 98}       \* "small0": patterns and haystacks with NUL bytes
 SmallCases == {<<h, p>> : h \in UNION {[1..n -> AB] : n \in 0..MaxH}, p \in UNION {[1..n -> AB] : n \in 0..MaxP}}
 StructCases == {<<Strict(Pad(a) \o Variant(Pat(n), k) \o Pad(b)), Pat(n)>> : a \in Pads, b \in Pads, n \in PLens, k \in 1..6}
-Init == cas \in (IF Mode = "small" THEN SmallCases ELSE StructCases)
+Init == cas \in (IF Mode \in {"small", "small0"} THEN SmallCases ELSE StructCases)
 Next == FALSE /\ UNCHANGED cas
 Spec == Init /\ [][Next]_cas
-Emit == PrintT(<<"REPLAY", ToJson([ev |-> "contains", hay |-> cas[1], needle |-> cas[2], exp |-> Occurs(cas[2], cas[1])])>>)
+(* "the same every time the filter is compiled": other `contains` filters compiled before and still alive - here patterns *)
+(* of the same length that differ from p in one bit of the last, the first or a middle byte - change nothing, and each of *)
+(* them keeps answering for its own pattern                                                                            *)
+Flip(b, w) == IF (b \div w) % 2 = 0 THEN b + w ELSE b - w
+Siblings(p) == IF p = <<>> \/ Mode # "struct" THEN <<>>
+               ELSE <<[p EXCEPT ![Len(p)] = Flip(@, 16)], [p EXCEPT ![Len(p)] = Flip(@, 1)], [p EXCEPT ![1] = Flip(@, 16)],
+                      [p EXCEPT ![Len(p)] = Flip(@, 32)], [p EXCEPT ![(Len(p) + 1) \div 2] = Flip(@, 4)]>>
+Emit == PrintT(<<"REPLAY", ToJson([ev |-> "contains", hay |-> cas[1], needle |-> cas[2], exp |-> Occurs(cas[2], cas[1]),
+                                   prior |-> Strict([i \in 1..Len(Siblings(cas[2])) |-> [needle |-> Siblings(cas[2])[i], exp |-> Occurs(Siblings(cas[2])[i], cas[1])]])])>>)
 (* sanity: the empty pattern always occurs; a pattern longer than the haystack never does *)
 Sanity == /\ (cas[2] = <<>> => Occurs(cas[2], cas[1]))
           /\ (Len(cas[2]) > Len(cas[1]) => ~Occurs(cas[2], cas[1]))
